@@ -13,6 +13,7 @@
   the behaviour of the pinned tree is kept in the `pinned_*_counterexample` theorems.
 -/
 import HL.Generated.Expect.FeatureGate
+import HL.Generated.Expect.PureDiag
 import HL.Lemmas.Settings
 import HL.Lemmas.SettingsSpec
 import HL.Model.FmtWidth
